@@ -1,4 +1,5 @@
 import PyxisVerif.Props.C11
+import PyxisVerif.Props.CaseLift2
 #print axioms PyxisVerif.C11.resolve_spec_partial
 #print axioms PyxisVerif.C11.own_path_is_type_refuted
 #print axioms PyxisVerif.C11.lookup_sites
@@ -6,3 +7,8 @@ import PyxisVerif.Props.C11
 #print axioms PyxisVerif.C11.emitted_reference
 #print axioms PyxisVerif.C11.layout_uses_binding
 #print axioms PyxisVerif.C11.binding_exists
+#print axioms PyxisVerif.C11.case_lookup_sites_fields
+#print axioms PyxisVerif.C11.case_lookup_sites_functions
+#print axioms PyxisVerif.C11.case_lookup_sites_enum
+#print axioms PyxisVerif.C11.case_lookup_sites_xvals
+#print axioms PyxisVerif.C11.case_layout_uses_binding
